@@ -164,6 +164,9 @@ func (p *parser) parseBinaryExpr(left Node) Node {
 	if expType == EMPTY_ARRAY && binaryExp.Op == OP_PLUS {
 		binaryExp.T = binaryExp.Right.Type() // array concatenation e.g. [] + [1 2]
 	}
+	if binaryExp.Op == OP_PLUS && hasUntypedEmpty(expType) && !hasUntypedEmpty(binaryExp.Right.Type()) {
+		binaryExp.T = binaryExp.Right.Type() // nested, e.g. [[]] + [[1 2]]
+	}
 	// The result of an expression is not a literal: it cannot be coerced into
 	// a different composite type, see Type.Fixed.
 	binaryExp.T = fixedType(binaryExp.T)
